@@ -16,10 +16,12 @@ type lineLimitReader struct {
 	LineLimit int
 
 	curLineLength int
+	tripped       bool // ErrTooLongLine has been returned
 }
 
 func (r *lineLimitReader) Read(b []byte) (int, error) {
 	if r.curLineLength > r.LineLimit && r.LineLimit > 0 {
+		r.tripped = true
 		return 0, ErrTooLongLine
 	}
 
@@ -39,6 +41,7 @@ func (r *lineLimitReader) Read(b []byte) (int, error) {
 		r.curLineLength++
 
 		if r.curLineLength > r.LineLimit {
+			r.tripped = true
 			return 0, ErrTooLongLine
 		}
 	}
